@@ -31,7 +31,7 @@ func (prop) ID() string       { return "C09" }
 func (prop) Level() string    { return "exploration" }
 func (prop) Parallelism() int { return 26 } // children mostly sleep through the 40 s grace
 func (prop) Rule() string {
-	return "scenario = one service of the C01 quantifier hosted by the real dispatcher: warm-up, census, history of N sequential connections (C01 dialogue/mutation/raw inputs followed by client close; single datagrams for UDP; FTP PASV/EPSV never connected to) plus silent connections parked at protocol stages (no byte, partial first message, after the first message), 40 s grace (> the 30 s idle timeout), census, N more connections, grace, census. Non-trivial = the history elicited replies or events and both censuses were taken; distinct by (service, N). Every history includes the service's fixed cases (request storms, ftp data-connection commands with ill-formed arguments and transfers without a data connection, repeated PASV/EPSV, authenticated ssh channel storms). Also: key sequences that never end (telnet, authenticated ssh shell), an ssh shell that receives 40 window-change requests, a slow passive ftp session with several transfers on one data connection; an end-of-run census reports connection handlers that are still running after every client has left."
+	return "scenario = one service of the C01 quantifier hosted by the real dispatcher: warm-up, census, history of N sequential connections (C01 dialogue/mutation/raw inputs followed by client close; single datagrams for UDP; FTP PASV/EPSV never connected to) plus silent connections parked at protocol stages (no byte, partial first message, after the first message), 40 s grace (> the 30 s idle timeout), census, N more connections, grace, census. Non-trivial = the history elicited replies or events and both censuses were taken; distinct by (service, N). Every history includes the service's fixed cases (request storms, ftp data-connection commands with ill-formed arguments and transfers without a data connection, repeated PASV/EPSV, authenticated ssh channel storms). Also: key sequences that never end (telnet, authenticated ssh shell), an ssh shell that receives 40 window-change requests, a slow passive ftp session with several transfers on one data connection; an end-of-run census reports connection handlers that are still running after every client has left. Every tcp history contains six pairs of sessions in which the first sends its first message, a second one from another address runs its whole dialogue and leaves, and the first then goes on."
 }
 func (prop) Assumptions() []string {
 	return []string{"'bounded time' is checked as: handlers of closed clients have returned by the census taken after a 40 s grace; connections left silent are closed by the server within 95 s (three idle timeouts + 5 s: net/http's header reader legitimately swallows one timeout while peeking for a continuation line)", "a leak is an excess over the warm baseline that is positive after N connections and larger after 2N (one-off lazily created goroutines are baseline)", "spin = more than half a core of CPU over a 2 s idle window"}
